@@ -350,3 +350,89 @@ Definition route_case_ok (c : cfg) (mode : N) (p : list hstep) (err : bool) (art
   let '(cl, out) := run_handler s p [] in
   arts_eqb out arts &&
   (if is_some (signer s) then true else implb (reaches_signing p) err).
+
+(* ------------------------------------------------------------------ other writers of the published-key list *)
+(* RuntimeState.KeymasterPublicKeys is read by /public/sshca, the JWKS endpoint and the verification of
+   the server's own cookies.  In the code its only writer after start-up is unsealCA (ASetPubkeys, an
+   append under the mutex).  To state that publication is STABLE the interleaving model is opened to any
+   further writer: an event EWrite f is one critical section `Lock; KeymasterPublicKeys = f state; Unlock`
+   of some other goroutine (it can only run while the mutex is free; one write = one atomic action, so
+   collapsing the section into one step loses nothing). *)
+Inductive ev :=
+| EThread (i : nat)                      (* thread i of the pool (an injection or a request) makes a step *)
+| EWrite (f : state -> list key).        (* another writer's critical section *)
+
+Definition step2 (c : cfg) (w : world) (e : ev) : world :=
+  match e with
+  | EThread i => step c w i
+  | EWrite f =>
+      match lock w with
+      | None => {| st := set_pubkeys (st w) (f (st w)); lock := None; threads := threads w; transitions := transitions w |}
+      | Some _ => w                      (* blocked on the mutex *)
+      end
+  end.
+Definition run2 (c : cfg) (w : world) (evs : list ev) : world := fold_left (step2 c) evs w.
+
+(* the keys of the signers that are loaded right now *)
+Definition local_keys (s : state) : list key :=
+  (match ed s with Some e => [e] | None => [] end) ++ (match signer s with Some k => [k] | None => [] end).
+
+(* two writers that keep publication: appending a key, and re-reading the peer-key file with the local
+   signers' keys taken IN THE SAME critical section *)
+Definition w_append (k : key) : state -> list key := fun s => add_key k (pubkeys s).
+Definition w_reload (file : list key) : state -> list key := fun s => fold_left (fun l k => add_key k l) file (local_keys s).
+
+(* NOT a writer of the code — the variant the stability theorem excludes: a reloader that takes the local
+   signers' keys in one critical section (ESnap), reads the file without the mutex, and REPLACES the list
+   in a second critical section (EReplace) by snapshot + file keys *)
+Record world3 := { w3 : world; snap : option (list key) }.
+Inductive ev3 := E3 (e : ev) | ESnap | EReplace (file : list key).
+Definition step3 (c : cfg) (x : world3) (e : ev3) : world3 :=
+  match e with
+  | E3 e => {| w3 := step2 c (w3 x) e; snap := snap x |}
+  | ESnap => match lock (w3 x) with
+             | None => {| w3 := w3 x; snap := Some (local_keys (st (w3 x))) |}
+             | Some _ => x
+             end
+  | EReplace file =>
+      match lock (w3 x), snap x with
+      | None, Some l => {| w3 := step2 c (w3 x) (EWrite (fun _ => fold_left (fun a k => add_key k a) file l)); snap := None |}
+      | _, _ => x
+      end
+  end.
+Definition run3 (c : cfg) (x : world3) (evs : list ev3) : world3 := fold_left (step3 c) evs x.
+
+(* ------------------------------------------------------------------ published keys observed over time (case file) *)
+(* after the injection was answered 200 the published sets are fetched again and again: each poll reports
+   the number of published keys and whether every key that signs was published and the server accepted
+   its own fresh cookie.  The model: nothing but unsealCA writes the list, so every poll sees the state
+   the injection left. *)
+Definition poll_ok (c : cfg) (polls : list (nat * bool)) : bool :=
+  let s := fst (unseal_ca c (sealed_init c) (right_pass c)) in
+  forallb (fun p => Nat.eqb (fst p) (length (pubkeys s)) && Bool.eqb (snd p) (completeb c s)) polls.
+(* the property's predicate on the observation: a poll at which a signing key was not published *)
+Definition poll_violates (polls : list (nat * bool)) : bool := existsb (fun p => negb (snd p)) polls.
+
+(* ------------------------------------------------------------------ the auto-unseal path, observed (case file) *)
+(* tryAwsUnseal hands the stored secret to unsealCA (no TLS gate on this path); when the secret cannot be
+   fetched or lacks the configured key unsealCA is not reached (handed = None) *)
+Definition auto_state (c : cfg) (handed : option bs) : state :=
+  match handed with Some p => fst (unseal_ca c (sealed_init c) p) | None => sealed_init c end.
+
+Definition auto_case_ok (c : cfg) (handed : option bs) (ob : N * (bool * bool * nat * nat * nat * bool)) : bool :=
+  let s := auto_state c handed in
+  let '(rz, (s1, e1, n1, p1, y1, o1)) := ob in
+  let '(s2, e2, n2, p2, y2, o2) := observe s in
+  (rz =? readyz s) && Bool.eqb s1 s2 && Bool.eqb e1 e2 && Nat.eqb n1 n2 && Nat.eqb p1 p2 && Nat.eqb y1 y2 && Bool.eqb o1 o2.
+
+(* the property's predicate on the observation: unsealed although the secret does not decrypt and load every
+   configured key file (c09_auto_unseal_only_right_pass), or still sealed but not as it was
+   (c09_auto_unseal_refused_unchanged) *)
+Definition auto_good (c : cfg) (p : bs) : bool :=
+  bs_eqb p (right_pass c) && main_ok c && role_ok c &&
+  match ed_file c with Some (pe, _, r) => bs_eqb p pe && file_ok r | None => true end.
+Definition auto_case_violates (c : cfg) (handed : option bs) (ob : N * (bool * bool * nat * nat * nat * bool)) : bool :=
+  let '(rz, (sg, e, nca, npub, rdy, role)) := ob in
+  let good := match handed with Some p => auto_good c p | None => false end in
+  (sg && negb good) ||
+  (negb sg && (e || role || negb (Nat.eqb nca 0) || negb (Nat.eqb rdy 0) || negb (Nat.eqb npub (length (extra_pubkeys c))) || negb (rz =? 503))).
